@@ -981,16 +981,52 @@ class Model:
                     total = interp.call(func, [total, x], {}, node)
                 out.append(total)
             return out
-        if path in ('itertools.takewhile', 'itertools.dropwhile') and len(args) == 2 and not isinstance(args[1], Opaque):
-            seq = list(interp.iterate(args[1], node))
-            n = 0
-            while n < len(seq) and interp.truth(interp.call(args[0], [seq[n]], {}, node), node):
-                n += 1
-            return GenResult(seq[:n] if path.endswith('takewhile') else seq[n:])
-        if path == 'itertools.chain.from_iterable' and len(args) == 1 and not isinstance(args[0], Opaque):
-            return GenResult(x for part in interp.iterate(args[0], node) for x in interp.iterate(part, node))
-        if path == 'itertools.chain' and not any(isinstance(a, Opaque) for a in args):
-            return GenResult(x for a in args for x in interp.iterate(a, node))
+        if path in ('itertools.takewhile', 'itertools.dropwhile') and len(args) == 2 and not isinstance(args[1], Opaque | SVar):
+            from .interp import LazyGen
+            pred, src = args
+
+            def while_(take=path.endswith('takewhile')):
+                reader = interp.pulling(src, node)
+                for x in reader:
+                    ok = interp.truth(interp.call(pred, [x], {}, node), node)
+                    if take:
+                        if not ok:
+                            return  # (the element that failed the test is consumed, as in Python)
+                        yield x
+                    elif not ok:
+                        yield x
+                        yield from reader
+                        return
+            return LazyGen(while_())
+        if path == 'itertools.chain.from_iterable' and len(args) == 1 and not isinstance(args[0], Opaque | SVar):
+            from .interp import LazyGen
+            return LazyGen(x for part in interp.pulling(args[0], node) for x in interp.pulling(part, node))
+        if path == 'itertools.chain' and not any(isinstance(a, Opaque | SVar) for a in args):
+            from .interp import LazyGen
+            return LazyGen(x for a in args for x in interp.pulling(a, node))
+        if path == 'itertools.groupby' and args and not isinstance(args[0], Opaque | SVar):
+            keyf = kwargs.get('key', args[1] if len(args) > 1 else None)
+            groups: list = []
+            for x in interp.iterate(args[0], node):
+                k = interp.call(keyf, [x], {}, node) if keyf is not None else x
+                if isinstance(k, Opaque | SVar):
+                    raise AnalysisError(f'itertools.groupby over abstract keys at {interp.where(node)}')
+                if groups and interp.compare(ast.Eq(), groups[-1][0], k, node) is True:
+                    groups[-1][1].append(x)
+                else:
+                    groups.append((k, GenResult([x])))
+            return GenResult(groups)
+        if path == 'itertools.repeat' and len(args) == 1:
+            from .interp import LazyGen
+
+            def forever(x=args[0]):
+                while True:
+                    yield x
+            return LazyGen(forever())
+        if path == 'itertools.count' and all(isinstance(a, int | float) for a in args) and len(args) <= 2:
+            from .interp import LazyGen
+            import itertools
+            return LazyGen(itertools.count(*args))
         if path == 'itertools.product' and not kwargs and not any(isinstance(a, Opaque | SVar) for a in args):
             import itertools
             return GenResult(itertools.product(*[interp.iterate(a, node) for a in args]))
@@ -1630,18 +1666,31 @@ class Model:
                 return GenResult(zip(*args, strict=False))
             # with one-shot iterators among the arguments the order of reading matters: each round reads the arguments from left
             # to right and stops at the first exhausted one - what the round already took from the iterators before it is lost
-            readers = [interp.pulling(a, node) for a in args]
-            rows = []
-            while True:
-                row = []
-                for k, r_ in enumerate(readers):
-                    try:
-                        row.append(next(r_))
-                    except StopIteration:
-                        if strict and (k > 0 or any(_has_more(r2) for r2 in readers[1:])):
-                            raise RaiseSignal('ValueError', node, interp.where(node), ('zip() arguments have different lengths',)) from None
-                        return GenResult(rows)
-                rows.append(tuple(row))
+            from .interp import LazyGen
+
+            def zipped():
+                readers = [interp.pulling(a, node) for a in args]
+                while True:
+                    row = []
+                    for k, r_ in enumerate(readers):
+                        try:
+                            row.append(next(r_))
+                        except StopIteration:
+                            if strict and (k > 0 or any(_has_more(r2) for r2 in readers[1:])):
+                                raise RaiseSignal('ValueError', node, interp.where(node), ('zip() arguments have different lengths',)) from None
+                            return
+                    yield tuple(row)
+            return LazyGen(zipped())
+        if name == 'enumerate' and args and isinstance(args[0], GenResult):
+            from .interp import LazyGen
+            start = kwargs.get('start', args[1] if len(args) > 1 else 0)
+
+            def numbered():
+                k = start
+                for x in interp.pulling(args[0], node):
+                    yield (k, x)
+                    k += 1
+            return LazyGen(numbered())
         if name in ('enumerate', 'list', 'tuple', 'set', 'frozenset', 'reversed'):
             if args:
                 args = [interp.iterate(args[0], node), *args[1:]]
@@ -1694,12 +1743,25 @@ class Model:
                     raise RaiseSignal('StopIteration', node, interp.where(node)) from None
             if isinstance(it, list | tuple | dict | str | set):
                 raise RaiseSignal('TypeError', node, interp.where(node), (f"'{type(it).__name__}' object is not an iterator",))
-        if name in ('map', 'filter'):
+        if name in ('map', 'filter') and len(args) >= 2 and not any(isinstance(a, Opaque | SVar) for a in args[1:]):
+            # iterators: the function runs when an element is asked for, the sources are read only as far as the reader goes
+            from .interp import LazyGen
             f = args[0]
-            seq = interp.iterate(args[1], node)
+            if name == 'map' and len(args) == 2:
+                return LazyGen(interp.call(f, [x], {}, node) for x in interp.pulling(args[1], node))
             if name == 'map':
-                return GenResult(interp.call(f, [x], {}, node) for x in seq)
-            return GenResult(x for x in seq if interp.truth(interp.call(f, [x], {}, node), node))
+                def rows():
+                    readers = [interp.pulling(a, node) for a in args[1:]]
+                    while True:
+                        row = []
+                        for r_ in readers:
+                            try:
+                                row.append(next(r_))
+                            except StopIteration:
+                                return
+                        yield interp.call(f, row, {}, node)
+                return LazyGen(rows())
+            return LazyGen(x for x in interp.pulling(args[1], node) if interp.truth(interp.call(f, [x], {}, node) if f is not None else x, node))
         try:
             return fn(*args, **kwargs)
         except (ValueError, TypeError) as ex:
